@@ -138,7 +138,7 @@ func (s *restSrv) Recv() (*regattapb.RestoreMessage, error) {
 	return m, nil
 }
 func (s *restSrv) SendAndClose(r *regattapb.RestoreResponse) error { s.resp = r; return nil }
-func (s *restSrv) Context() context.Context                      { return context.Background() }
+func (s *restSrv) Context() context.Context                        { return context.Background() }
 
 // stubTables is the TableService behind BackupServer.Restore: Restore reads the
 // commands from the reader the way table.Manager.readIntoTable does.
@@ -151,8 +151,10 @@ func (t *stubTables) GetTables() ([]table.Table, error) { return nil, errors.New
 func (t *stubTables) GetTable(string) (table.ActiveTable, error) {
 	return table.ActiveTable{}, errors.New("stub")
 }
-func (t *stubTables) CreateTable(string) (table.Table, error) { return table.Table{}, errors.New("stub") }
-func (t *stubTables) DeleteTable(string) error                { return errors.New("stub") }
+func (t *stubTables) CreateTable(string) (table.Table, error) {
+	return table.Table{}, errors.New("stub")
+}
+func (t *stubTables) DeleteTable(string) error { return errors.New("stub") }
 func (t *stubTables) Restore(name string, r io.Reader) error {
 	t.name = name
 	return t.read(r)
